@@ -39,6 +39,10 @@ type Entry struct {
 	Reconstruct func(rows any) (any, error)
 	// NewBuffer for sorting etc.
 	NewGenericBuffer func(rows any, opts ...parquet.RowGroupOption) (parquet.RowGroup, error)
+	// instance handles for histories of calls on one writer / buffer (typed.go)
+	NewTypedWriter        func(w io.Writer, opts ...parquet.WriterOption) TypedWriter
+	NewTypedSortingWriter func(w io.Writer, sortRowCount int64, opts ...parquet.WriterOption) TypedWriter
+	NewTypedBuffer        func(opts ...parquet.RowGroupOption) TypedBuffer
 }
 
 var Catalog []*Entry
@@ -227,6 +231,7 @@ func entryOf[T any](name string) (e *Entry) {
 		}
 		return buf, nil
 	}
+	typedExt[T](e)
 	return e
 }
 
